@@ -4,6 +4,7 @@ import (
 	"bufio"
 	"bytes"
 	"encoding/json"
+	"fmt"
 	"math/rand"
 	"os"
 
@@ -58,15 +59,25 @@ func rsRoundRows(lg *tracelog.Log, rng *rand.Rand, cs c07Case, length, g int, ro
 var wordRows []int
 
 func rsRound(lg *tracelog.Log, rng *rand.Rand, cs c07Case, length, g int, withWords bool) error {
+	// coders are values meant to be reused: the same coder object serves every round of its shape
 	var coder rsec16.Coder
 	var err error
-	if cs.Coder == "cauchy" {
-		coder, err = rsec16.NewCoderCauchy(cs.D, cs.P, g)
+	key := fmt.Sprintf("%s/%d/%d/%d", cs.Coder, cs.D, cs.P, g)
+	if c, ok := coderCache[key]; ok {
+		coder = c
 	} else {
-		coder, err = rsec16.NewCoderPAR2Vandermonde(cs.D, cs.P, g)
-	}
-	if err != nil {
-		return err
+		if cs.Coder == "cauchy" {
+			coder, err = rsec16.NewCoderCauchy(cs.D, cs.P, g)
+		} else {
+			coder, err = rsec16.NewCoderPAR2Vandermonde(cs.D, cs.P, g)
+		}
+		if err != nil {
+			return err
+		}
+		if len(coderCache) > 64 {
+			coderCache = map[string]rsec16.Coder{}
+		}
+		coderCache[key] = coder
 	}
 	data := make([][]byte, cs.D)
 	orig := make([][]byte, cs.D)
@@ -157,6 +168,8 @@ func rsRound(lg *tracelog.Log, rng *rand.Rand, cs c07Case, length, g int, withWo
 	lg.Emit(ev)
 	return nil
 }
+
+var coderCache = map[string]rsec16.Coder{}
 
 type panicErr struct{ v interface{} }
 
